@@ -7,6 +7,7 @@ import (
 	"math"
 	"reflect"
 	"strings"
+	"sync"
 )
 
 // TypeChecker validates type compatibility and performs type checking
@@ -14,8 +15,13 @@ type TypeChecker struct {
 	typeDefs  map[string]TypeDef
 	functions map[string]Function
 	traitDefs map[string]TraitDef
-	// typeScope maps type parameter names to their resolved types during generic instantiation
-	typeScope map[string]Type
+	// typeScope maps type parameter names to their resolved types during generic instantiation.
+	// One checker serves every request of a server, so generic calls of
+	// concurrent requests push and pop here at the same time: typeScopeMu
+	// guards the map (unguarded, two such requests were a fatal
+	// "concurrent map writes").
+	typeScope   map[string]Type
+	typeScopeMu sync.RWMutex
 }
 
 // NewTypeChecker creates a new TypeChecker
@@ -483,7 +489,7 @@ func (tc *TypeChecker) SubstituteTypeParams(t Type, typeArgs map[string]Type) Ty
 			return resolved
 		}
 		// If not found in typeArgs, check tc.typeScope
-		if resolved, ok := tc.typeScope[typ.Name]; ok {
+		if resolved, ok := tc.GetTypeBinding(typ.Name); ok {
 			return resolved
 		}
 		// Return the type parameter as-is if not resolved
@@ -746,6 +752,8 @@ func (tc *TypeChecker) inferFromValue(paramType Type, value interface{}, inferre
 
 // PushTypeScope pushes type bindings for a generic context
 func (tc *TypeChecker) PushTypeScope(bindings map[string]Type) {
+	tc.typeScopeMu.Lock()
+	defer tc.typeScopeMu.Unlock()
 	for name, t := range bindings {
 		tc.typeScope[name] = t
 	}
@@ -753,6 +761,8 @@ func (tc *TypeChecker) PushTypeScope(bindings map[string]Type) {
 
 // PopTypeScope removes type bindings from the scope
 func (tc *TypeChecker) PopTypeScope(names []string) {
+	tc.typeScopeMu.Lock()
+	defer tc.typeScopeMu.Unlock()
 	for _, name := range names {
 		delete(tc.typeScope, name)
 	}
@@ -760,6 +770,8 @@ func (tc *TypeChecker) PopTypeScope(names []string) {
 
 // GetTypeBinding returns the type bound to a type parameter name
 func (tc *TypeChecker) GetTypeBinding(name string) (Type, bool) {
+	tc.typeScopeMu.RLock()
+	defer tc.typeScopeMu.RUnlock()
 	t, ok := tc.typeScope[name]
 	return t, ok
 }
